@@ -456,9 +456,9 @@ def _check_structure(rep: Report, rule: str, m) -> None:
     for what, pred in need.items():
         rep.check(any(pred(g) for g in rs), rule, ae.module, ae.qualname, f"add_entry raises: {what}", f"AbstractEntrySet.add_entry has no raise for '{what}' (guards: {[g[:70] for g in rs]})", loc(ae.node))
     # the row loop cannot end before the sheet does (shared with C11.d)
-    loops = [n for n in po.node.body if isinstance(n, ast.For) and "rows()" in unparse(n.iter)]
-    if len(loops) != 1:
-        raise AnalysisError("row loop of parse_ods not found")
+    from . import c11 as _c11
+
+    loops = [_c11.find_row_loop(rep, rule, prog, po)[0]]
     exits = [n for n in ast.walk(loops[0]) if isinstance(n, (ast.Break, ast.Continue, ast.Return))]
     rep.check(not exits, rule, po.module, po.qualname, "the row loop examines every row to the end of the sheet", f"the row loop of parse_ods contains {[type(n).__name__.lower() for n in exits]}: structural faults after that point (data outside a table, repeated tables, dangling TABLE END) are never examined", loc(exits[0]) if exits else loc(loops[0]))
 
